@@ -108,6 +108,7 @@ package generator
 //@   option e2e array accept_arr(v, len_of(x), isnil_of(x))
 //@   shape out = emitter
 //@   shape v.arrayDepth = 1 | 2 | 3 | 4
+//@   shape-thorough v.arrayDepth = 5 | 6
 //@   requires valid-schema: v.minItems >= 0 && v.maxItems >= 0
 //@   assigns *out
 //@   ensures [C17] format-independent: independent_of(emitted(out), format)
@@ -163,6 +164,7 @@ package generator
 //@   props C03 C19 C01 C17
 //@   shape out = emitter
 //@   shape v.arrayDepth = 0 | 1 | 2 | 3 | 4
+//@   shape-thorough v.arrayDepth = 5 | 6
 //@   assigns *out
 //@   ensures [C17] format-independent: independent_of(emitted(out), format)
 //@   ensures [C01,C19] parses: parses(emitted(out)) && !mentions(emitted(out), "j") && !mentions(emitted(out), "raw") && out.indent == old(out.indent)
@@ -187,6 +189,7 @@ package generator
 //@   props C11 C19 C01
 //@   shape out = emitter
 //@   shape v.elemCount = 1 | 2 | 3 | 4
+//@   shape-thorough v.elemCount = 5 | 6 | 8
 //@   requires named: v.fieldName != ""
 //@   assigns *out
 //@   ensures [C01,C19] parses: parses(emitted(out)) && !mentions(emitted(out), "j") && !mentions(emitted(out), "plain") && out.indent == old(out.indent)
@@ -207,6 +210,7 @@ package generator
 //@   props C19 C04 C09 C01 C17 C18
 //@   option call-result emitter
 //@   shape validators = absvals(0) | absvals(1) | absvals(2) | absvals(3)
+//@   shape-thorough validators = absvals(4)
 //@   shape declType = decl(T,none) | decl(T,struct) | decl(T,addl2) | decl(Plain,none) | decl(Plain,addl)
 //@   shape output = decls(T) | decls(T,Plain) | decls(Plain) | decls(Plain,Plain_0) | decls(Plain,Plain_0?) | decls(Plain,Plain_0,Plain_1)
 //@   requires declared: map_has(output.declsByName, declType.Name)
@@ -224,6 +228,7 @@ package generator
 //@   option call-result emitter
 //@   option twin (*jsonFormatter).generate
 //@   shape validators = absvals(0) | absvals(1) | absvals(2) | absvals(3)
+//@   shape-thorough validators = absvals(4)
 //@   shape declType = decl(T,none) | decl(T,struct) | decl(T,addl2) | decl(Plain,none) | decl(Plain,addl)
 //@   shape output = decls(T) | decls(T,Plain) | decls(Plain) | decls(Plain,Plain_0) | decls(Plain,Plain_0?) | decls(Plain,Plain_0,Plain_1)
 //@   requires declared: map_has(output.declsByName, declType.Name)
@@ -507,12 +512,13 @@ package generator
 //@   shape g = sgen() | sgen(@jsononly)
 //@   shape decl = decl(T,none) | decl(T,addl) | decl(T,addl2)
 //@   shape validators = absvals(0) | absvals(1) | absvals(2)
+//@   shape-thorough validators = absvals(3)
 //@   assigns *g.output.file
 //@   ensures [C01,C16] additional-properties-block-has-its-imports: !g.config.OnlyModels && struct_has_field(decl.Type, "AdditionalProperties") ==> has_import(g, "reflect") && has_import(g, "strings") && has_import(g, "github.com/go-viper/mapstructure/v2")
 //@   ensures [C01,C16] no-unused-additional-properties-import: !struct_has_field(decl.Type, "AdditionalProperties") ==> !has_import(g, "reflect") && !has_import(g, "strings") && !has_import(g, "github.com/go-viper/mapstructure/v2")
 //@   ensures [C16] only-models-adds-nothing: g.config.OnlyModels ==> len(g.output.file.Package.Decls) == 0 && len(g.output.file.Package.Imports) == 0
 //@   ensures [C16,C17] one-method-per-formatter: !g.config.OnlyModels ==> len(g.output.file.Package.Decls) == len(g.formatters) && has_import(g, "encoding/json") && (has_import(g, "gopkg.in/yaml.v3") <==> len(g.formatters) == 2)
-//@   ensures [C01] fmt-iff-some-fragment-returns-errors: !g.config.OnlyModels ==> (has_import(g, "fmt") <==> (len(validators) >= 1 && abs_has_error(0)) || (len(validators) >= 2 && abs_has_error(1)))
+//@   ensures [C01] fmt-iff-some-fragment-returns-errors: !g.config.OnlyModels ==> (has_import(g, "fmt") <==> (len(validators) >= 1 && abs_has_error(0)) || (len(validators) >= 2 && abs_has_error(1)) || (len(validators) >= 3 && abs_has_error(2)))
 //@   ensures [C01] no-stray-import: !g.config.OnlyModels ==> !has_import(g, "errors") && !has_import(g, "regexp") && !has_import(g, "math")
 
 // ---- one schemaGenerator per document (newSchemaGenerator) ---------------------
